@@ -1673,6 +1673,14 @@ fn execute_inner(ctx: &mut Ctx, lines: &[String]) -> Vec<String> {
                 oracles(ctx, &case_id, li, &f, &h, !h.unflushed);
                 hex(&all)
             }
+            // do the names of the files carry the start time of the program (`_YYYY-MM-DD_hh-mm-ss` right after
+            // the basename/discriminant, before the infix)?
+            ["HASSTART"] => {
+                let re = regex::Regex::new(r"(^|_)\d{4}-\d{2}-\d{2}_\d{2}-\d{2}-\d{2}(_|\.|$)").unwrap();
+                let any = list_dir(&dir, &f.foreign).iter().any(|n| re.is_match(n));
+                if any { ctx.report.fail(&case_id, "names-carry-start-time", &format!("line {li}: with rotation (or a suppressed time stamp) the names must not carry the start time: {:?}", list_dir(&dir, &[]))); }
+                if any { "1".into() } else { "0".into() }
+            }
             // the stream oracle alone (histories the model does not predict, `CASE robust`)
             ["CHECKSTREAM"] => {
                 ctx.report.count("op.CHECKSTREAM");
